@@ -147,7 +147,9 @@ def check_options(ctx: Ctx):
                         if out.kind == "raise":
                             ctx.violated("R15.2", f, out.node, base, f"evaluate raises {out.exc}" + (f" (local '{out.value}' read before assignment)" if out.exc == "UnboundLocalError" else ""), None)
                             continue
-                        if out.decisions:
+                        # splits on facts about the inputs' dtypes (fast paths) are input classes, each
+                        # checked like any other; anything else is an unmodelled condition
+                        if any(not (isinstance(v_, Unknown) and v_.tag.startswith("dtype-fact")) for _, v_, _ in out.decisions):
                             ctx.undecided("R15.2", f, out.node, base, "evaluation splits on an unmodelled condition")
                             continue
                         desc = [_call_desc(k_) for k_, _ in it.root.pipeline_calls]
